@@ -646,6 +646,8 @@ def r03_11(rep, prog):
             p = parents.get(id(x))
             while p is not None and sx.kind(p) in ('paren', 'cast'):
                 x, p = p, parents.get(id(p))
+            if p is not None and p[0] == 'cassign' and p[1] == '-' and is_edge(p[2]) and is_edge(p[3]):
+                return True                  # `w -= edge` with w holding an edge: w becomes a width
             return p is not None and sx.kind(p) == 'bin' and p[1] == '-' and is_edge(p[2]) and is_edge(p[3])
         for x in f.all_nodes():
             if _is_edge_load(x) and x is sx.strip(x):
